@@ -132,6 +132,7 @@ theorem mem_trace {P : Paths} {en : Entry} {x : Eff} (h : x ∈ trace P en) :
   | wasm => simp [trace] at h
   | startStdio => simp [trace] at h
   | startTcp => simp [trace] at h; rcases h with h | h <;> simp [h, Entry.isTcp]
+  | startTcpTaken => simp [trace] at h
   | update doc twice =>
     left
     rcases mem_updateEff h with h | h <;> exact ⟨_, h⟩
